@@ -887,7 +887,7 @@ class Interp:
                 if frame.owner is None:
                     raise Untranslatable("super() outside a method")
                 return SuperProxy(frame.owner, frame.self_obj)
-            if f in (str, int, len):
+            if f in (str, int, len, float):
                 return self.call_builtin(f, args, kwargs)
             if f is enumerate and len(args) == 1 and not kwargs and isinstance(args[0], (ListObj, list)):
                 lst = args[0]
@@ -991,6 +991,8 @@ class Interp:
             return None
         if f is int and len(args) == 1 and isinstance(args[0], NumVal) and not args[0].is_decimal:
             return args[0]
+        if f is float and len(args) == 1 and isinstance(args[0], NumVal):
+            return ("float", args[0])
         if f is str:
             (a,) = args
             if isinstance(a, (str, SStr)):
@@ -3278,4 +3280,45 @@ def translate_es(V, T):
                     defs.append((name, params, "LeafArgs", build_tree(paths, 0, 1), None, len(paths)))
                 except Untranslatable as e:
                     defs.append((name, None, "LeafArgs", None, str(e), 0))
+    # ---- the modifiers: which attribute of the built item receives the number
+    def mod_run(meth, cname, marker):
+        def run(oracle):
+            it = Interp(oracle)
+            me = builder(it, B.SHOULD)
+            eitem = Obj(None, lean="@eitem")
+
+            def rec_generic(interp, obj, a, k):
+                return ListObj([("elem", eitem)])
+            me.attrs["generic_visit"] = ("rechook", "generic_visit", me)
+            it.rec_hooks["generic_visit"] = rec_generic
+            node, params = class_inputs(T, cname)
+            ctx = {"name": SOpt("ctxName", "str")}
+            if marker:
+                ctx[B.CONTEXT_ANALYZE_MARKER] = SBool("marker")
+            try:
+                r = it.call(it.getattr_(me, meth, None), [node, ctx], {}, None)
+            except PyRaise as e:
+                return emit_raise(e)
+            if isinstance(r, list):
+                r = ListObj([("elem", x) for x in r])
+            it.normalize_list(r)
+            if len(r.segs) != 1 or r.segs[0][1] is not eitem:
+                raise Untranslatable("%s does not yield exactly the item built for its operand" % meth)
+            written = sorted(eitem.written)
+            if len(written) != 1:
+                raise Untranslatable("%s sets %s" % (meth, written))
+            v = eitem.attrs[written[0]]
+            if not (isinstance(v, tuple) and v and v[0] == "float" and isinstance(v[1], NumVal) and v[1].lean_name == "n"):
+                raise Untranslatable("%s stores %r" % (meth, v))
+            return "Except.ok %s" % lean_string(written[0])
+        return run
+    for meth, cname in (("visit_boost", "Boost"), ("visit_fuzzy", "Fuzzy"), ("visit_proximity", "Proximity")):
+        for marker in (False, True):
+            name = "%s_%s" % (meth, "marker" if marker else "nomarker")
+            params = ["(dflt : Str)", "(na : List Str)"] + (["(marker : Bool)"] if marker else [])
+            try:
+                paths = explore(mod_run(meth, cname, marker))
+                defs.append((name, params, "String", build_tree(paths, 0, 1), None, len(paths)))
+            except Untranslatable as e:
+                defs.append((name, None, "String", None, str(e), 0))
     return tables, defs
